@@ -496,4 +496,8 @@ def run(ctx):
     from rules import c04 as _c04, c05 as _c05
     _c04.rule_regs_source(ctx, R="C20/stack-pointer/thread")
     _c05.rule_greg_map(ctx, R="C20/stack-pointer/crash-context")
+    # the scanned bytes are the thread's own stack words: the reader behind the stack copy (same rule instances as C17/args, C17/prefix-only)
+    from rules import c17 as _c17s
+    _c17s.rule_args(ctx, R="C20/reader-args")
+    _c17s.rule_prefix_only(ctx, R="C20/reader-prefix-only")
 
